@@ -383,6 +383,18 @@ def main():
                 if r.returncode==2: print(r.stdout[-500:], r.stderr[-500:])
                 if os.environ.get('SHOW'): print(r.stdout[:int(os.environ['SHOW'])])
                 results.append((mu['name'],p,status,rules))
+                if os.environ.get('ROUNDTRIP') and r.returncode==1:
+                    import re
+                    mm=re.search(r'replay=(\S+)', r.stdout)
+                    if mm:
+                        rp=mm.group(1)
+                        r1=run(f"cd /verif && ./check --replay {rp}")
+                        open(path,'w').write(src)   # restore the tree
+                        r0=run(f"cd /verif && ./check --replay {rp}")
+                        open(path,'w').write(src.replace(mu['old'],mu['new']))
+                        ok = r1.returncode==1 and r0.returncode==0
+                        print(f"    replay round trip: with change rc={r1.returncode}, without rc={r0.returncode} -> {'OK' if ok else 'BAD'}", flush=True)
+                        if not ok: print(r1.stdout[-400:], r0.stdout[-400:])
         finally:
             open(path,'w').write(src)
     run(f"git -C {REPO} checkout -- .")
